@@ -19,6 +19,7 @@ Layers (each a theorem of its own, for arbitrary inputs of its kind):
 import TLX.Props.Export
 import TLX.Props.C01Capstone
 import TLX.Props.C12Dissect
+import TLX.Spec.TlsCapture
 set_option linter.unusedSimpArgs false
 namespace TLX.Props.C01File
 open TLX TLX.MainLoop TLX.Spec.Demux TLX.Lemmas.MainLoop TLX.Dissect TLX.OutBytes
@@ -428,6 +429,231 @@ theorem tls13_file_exact (mask : Quic.Dissect.MaskFn) (H : Crypto.Prims) (P : Pr
     _ hconn with h | ⟨f, hf, hrb⟩
   · exact .inl h
   · exact .inr ⟨f, hf, frames, hrb, hre⟩
+
+end
+
+section
+open TLX.Spec.FrameBuild TLX.Spec.TlsCapture TLX.Props.C12Dissect
+
+/-! ### a capture described from the sender's side -/
+
+/-- what dpkt finds in a frame built by `Spec.FrameBuild` (`dissect_build_v4/_v6`) -/
+def viewOf (fr : Spec.FrameBuild.Frame) : Dissected :=
+  match fr.net with
+  | .v4 h => .ip ⟨false, fr.srcMac, fr.dstMac, h.src, h.dst, fr.upper.proto, fr.upper.encode, transportOf fr.upper⟩
+  | .v6 h => .ip ⟨true, fr.srcMac, fr.dstMac, h.src, h.dst, fr.upper.proto, fr.upper.encode, transportOf fr.upper⟩
+
+theorem dissect_seg (fl : Flow) (d : Bool) (fr : Spec.FrameBuild.Frame) (t : Tcp) (h : IsSeg fl d fr t) :
+    dissect fr.encode = .ok (viewOf fr) := by
+  obtain ⟨hwf, hu, _, _, hnet⟩ := h
+  unfold viewOf
+  cases hn : fr.net with
+  | v4 h4 => exact dissect_build_v4 fr h4 hn hwf
+  | v6 h6 =>
+    rw [hn] at hnet
+    obtain ⟨_, hex, _, _⟩ := hnet
+    refine dissect_build_v6 fr h6 hn hwf (by rw [hex]; intro e he; cases he) ?_
+    rw [hex, hu]
+    simp [encChain, Upper.proto]
+
+def clientEp (fl : Flow) : Endpoint := ⟨fl.clientIp, fl.clientPort⟩
+def serverEp (fl : Flow) : Endpoint := ⟨fl.serverIp, fl.serverPort⟩
+
+/-- the `MainLoop.Pkt` of a segment -/
+theorem pktOf_seg (fl : Flow) (d : Bool) (fr : Spec.FrameBuild.Frame) (t : Tcp) (h : IsSeg fl d fr t) (tag : Nat) :
+    pktOf tag (viewOf fr) =
+      ⟨.tcp, if d then serverEp fl else clientEp fl, if d then clientEp fl else serverEp fl, t.payload, true, tag⟩ := by
+  obtain ⟨_, hu, hsp, hdp, hnet⟩ := h
+  unfold viewOf
+  cases hn : fr.net with
+  | v4 h4 =>
+    rw [hn] at hnet
+    obtain ⟨_, hs, hd⟩ := hnet
+    simp only [pktOf, hu, transportOf, hs, hd, hsp, hdp, clientEp, serverEp]
+    cases d <;> rfl
+  | v6 h6 =>
+    rw [hn] at hnet
+    obtain ⟨_, _, hs, hd⟩ := hnet
+    simp only [pktOf, hu, transportOf, hs, hd, hsp, hdp, clientEp, serverEp]
+    cases d <;> rfl
+
+theorem infoOf_seg (fl : Flow) (d : Bool) (fr : Spec.FrameBuild.Frame) (t : Tcp) (h : IsSeg fl d fr t) (us : Nat) :
+    infoOf us (viewOf fr) = ⟨t.seq, us, fr.srcMac, fr.dstMac, fl.v6⟩ := by
+  obtain ⟨_, hu, _, _, hnet⟩ := h
+  unfold viewOf
+  cases hn : fr.net with
+  | v4 h4 =>
+    rw [hn] at hnet
+    simp only [infoOf, hu, transportOf, hnet.1]
+  | v6 h6 =>
+    rw [hn] at hnet
+    simp only [infoOf, hu, transportOf, hnet.1]
+
+/-- a described capture: segments of the connection (each with the time the reader yields for it) and anything else -/
+inductive CEv
+  | seg (t : Container.Time) (fromServer : Bool) (fr : Spec.FrameBuild.Frame) (tcp : Tcp)
+  | foreign (e : CapEv)
+
+def CEv.cap : CEv → CapEv
+  | .seg t _ fr _ => ⟨t, fr.encode, viewOf fr⟩
+  | .foreign e => e
+
+/-- a packet of the flow, to select it with -/
+def refPkt (fl : Flow) : Pkt := ⟨.tcp, clientEp fl, serverEp fl, [], true, 0⟩
+
+/-- a foreign packet: dpkt dissects it without exception, and IF the main loop takes it for a TCP segment with payload, it
+    is between another pair of endpoints than the connection's (anything else — non-IP frames, ARP, ICMP, fragments, UDP
+    and QUIC, TCP of other flows with or without TLS in them, pure ACKs of any flow — is admitted) -/
+def Foreign (fl : Flow) (e : CapEv) : Prop :=
+  dissect e.buf = .ok e.d ∧
+  ∀ tag, (pktOf tag e.d).l4 = .tcp → (pktOf tag e.d).payload ≠ [] → sameFlow (refPkt fl) (pktOf tag e.d) = false
+
+def Described (fl : Flow) (evs : List CEv) : Prop :=
+  ∀ ev ∈ evs, match ev with
+    | .seg _ d fr t => IsSeg fl d fr t
+    | .foreign e => Foreign fl e
+
+/-- the packets of the connection that reach its session: the segments with payload, tagged by their position in the capture -/
+def flowPkts (fl : Flow) : Nat → List CEv → List Pkt
+  | _, [] => []
+  | n, .seg _ d _ t :: rest =>
+    if t.payload = [] then flowPkts fl (n + 1) rest
+    else ⟨.tcp, if d then serverEp fl else clientEp fl, if d then clientEp fl else serverEp fl, t.payload, true, n⟩ ::
+      flowPkts fl (n + 1) rest
+  | n, .foreign _ :: rest => flowPkts fl (n + 1) rest
+
+theorem tcpView_cons (o : Opts) (x : MainLoop.Item Keylog.Key) (l : List (MainLoop.Item Keylog.Key)) :
+    tcpView o (x :: l) = tcpView o [x] ++ tcpView o l := by
+  simp only [Spec.Demux.tcpView, List.filterMap_cons]
+  split <;> simp
+
+theorem tcpView_frame (o : Opts) (hc : o.checksumTest = false) (p : Pkt) :
+    tcpView o [(.frame p : MainLoop.Item Keylog.Key)] = if p.l4 = .tcp ∧ p.payload ≠ [] then [p] else [] := by
+  simp only [Spec.Demux.tcpView, List.filterMap_cons, List.filterMap_nil, classify, hc, Bool.false_and, Bool.false_eq_true,
+    if_false]
+  cases hl : p.l4 with
+  | tcp =>
+    cases hp : p.payload with
+    | nil => simp
+    | cons b bs => simp
+  | udp =>
+    cases hp : p.payload with
+    | nil => simp
+    | cons b bs =>
+      by_cases hq : (decide ((b.toNat &&& 64) >>> 6 = 1) || o.greasy) = true <;> simp [hq]
+  | other => simp
+
+theorem sameFlow_ref (fl : Flow) (d : Bool) (pl : Bytes) (c : Bool) (n : Nat) :
+    sameFlow (refPkt fl)
+      ⟨.tcp, if d then serverEp fl else clientEp fl, if d then clientEp fl else serverEp fl, pl, c, n⟩ = true := by
+  cases d <;> simp [sameFlow, refPkt]
+
+theorem capOk_of_described (fl : Flow) (evs : List CEv) (h : Described fl evs)
+    (ht : ∀ e ∈ evs.map CEv.cap, Ingest.isMinusOne e.t = false) : CapOk (evs.map CEv.cap) := by
+  intro e he
+  refine ⟨?_, ht e he⟩
+  simp only [List.mem_map] at he
+  obtain ⟨ev, hev, rfl⟩ := he
+  have := h ev hev
+  cases ev with
+  | seg t d fr tcp => exact dissect_seg fl d fr tcp this
+  | foreign e => exact this.1
+
+/-- the TLS-relevant packets of the connection's flow in the described capture are its segments with payload -/
+theorem flow_filter (fl : Flow) (o : Opts) (hc : o.checksumTest = false) (evs : List CEv) (h : Described fl evs)
+    (n : Nat) :
+    (tcpView o (itemsFrom n (evs.map CEv.cap))).filter (sameFlow (refPkt fl)) = flowPkts fl n evs := by
+  induction evs generalizing n with
+  | nil => rfl
+  | cons ev rest ih =>
+    have hrest := ih (fun x hx => h x (by simp [hx])) (n + 1)
+    have hev := h ev (by simp)
+    rw [List.map_cons, itemsFrom, tcpView_cons, List.filter_append, hrest, tcpView_frame o hc]
+    cases ev with
+    | seg t d fr tcp =>
+      simp only [CEv.cap, pktOf_seg fl d fr tcp hev n, flowPkts]
+      by_cases hp : tcp.payload = []
+      · simp [hp]
+      · simp [hp, sameFlow_ref]
+    | foreign e =>
+      have hev : Foreign fl e := hev
+      simp only [CEv.cap, flowPkts]
+      by_cases hcond : (pktOf n e.d).l4 = MainLoop.L4.tcp ∧ (pktOf n e.d).payload ≠ []
+      · have hsf := hev.2 n hcond.1 hcond.2
+        simp [hcond.1, hcond.2, hsf]
+      · have : ¬ ((pktOf n e.d).l4 = MainLoop.L4.tcp ∧ ¬ (pktOf n e.d).payload = []) := hcond
+        simp [this]
+
+/-- the segments of direction `d` that carry data, as a receiver of the capture sees them: (sequence number, data) -/
+def dirWires (d : Bool) : List CEv → List Spec.TlsFraming.Wire
+  | [] => []
+  | .seg _ d' _ t :: rest => if t.payload ≠ [] ∧ d' = d then (t.seq, t.payload) :: dirWires d rest else dirWires d rest
+  | .foreign _ :: rest => dirWires d rest
+
+open TLX.Lemmas.Capstone in
+theorem dirSegs_flow (fl : Flow) (hne : clientEp fl ≠ serverEp fl) (d : Bool) (evs : List CEv) (hd : Described fl evs)
+    (n : Nat) (info : Nat → Pipeline.Info)
+    (hinfo : ∀ tag, n ≤ tag → info tag = Ingest.lookup (infosFrom n (evs.map CEv.cap)) tag) :
+    (dirSegs info (serverEp fl) d (flowPkts fl n evs)).map Props.C05.wire = dirWires d evs := by
+  induction evs generalizing n with
+  | nil => rfl
+  | cons ev rest ih =>
+    have hrest := ih (fun x hx => hd x (by simp [hx])) (n + 1) (fun tag ht => by
+      rw [hinfo tag (by omega), List.map_cons, infosFrom, Lemmas.Export.lookup_cons_ne _ _ _ _ (by omega)])
+    have hev := hd ev (by simp)
+    cases ev with
+    | foreign e => simpa [flowPkts, dirWires] using hrest
+    | seg t d' fr tcp =>
+      have hev : IsSeg fl d' fr tcp := hev
+      have hi : info n = ⟨tcp.seq, (CEv.seg t d' fr tcp).cap.us, fr.srcMac, fr.dstMac, fl.v6⟩ := by
+        rw [hinfo n (Nat.le_refl _), List.map_cons, infosFrom, Lemmas.Export.lookup_cons_eq]
+        exact infoOf_seg fl d' fr tcp hev _
+      by_cases hp : tcp.payload = []
+      · simpa [flowPkts, dirWires, hp] using hrest
+      · simp only [flowPkts, hp, if_false, dirWires, ne_eq, not_false_eq_true, true_and]
+        simp only [dirSegs, List.filter_cons] at hrest ⊢
+        have hsrc : ((if d' then serverEp fl else clientEp fl) == serverEp fl) = d' := by
+          cases d' <;> simp [hne]
+        by_cases hdd : d' = d
+        · subst hdd
+          simp only [hsrc, beq_self_eq_true, if_true, List.map_cons, Props.C05.wire, hi, hrest]
+        · have : (d' == d) = false := by simpa using hdd
+          simp only [hsrc, this, Bool.false_eq_true, if_false, hdd, hrest]
+
+theorem flowPkts_shape (fl : Flow) (evs : List CEv) (n : Nat) :
+    ∀ p ∈ flowPkts fl n evs, ∃ (d : Bool) (pl : Bytes) (tag : Nat),
+      p = ⟨.tcp, if d then serverEp fl else clientEp fl, if d then clientEp fl else serverEp fl, pl, true, tag⟩ := by
+  induction evs generalizing n with
+  | nil => intro p hp; cases hp
+  | cons ev rest ih =>
+    intro p hp
+    cases ev with
+    | foreign e => exact ih (n + 1) p hp
+    | seg t d fr tcp =>
+      simp only [flowPkts] at hp
+      split at hp
+      · exact ih (n + 1) p hp
+      · rcases List.mem_cons.mp hp with rfl | hp
+        · exact ⟨d, _, _, rfl⟩
+        · exact ih (n + 1) p hp
+
+/-- roles: the server port is a server port (`-p` or built in), the client port is not — then whichever side sent the
+    first captured packet, the session's server is the connection's server (C10) -/
+theorem roles_of_flow (fl : Flow) (ports : List Int) (hsp : ports.contains (fl.serverPort : Int) = true)
+    (hcp : ports.contains (fl.clientPort : Int) = false) (d : Bool) (pl : Bytes) (c : Bool) (tag : Nat) (o : Opts)
+    (ho : o.ports = ports) :
+    let p : Pkt := ⟨.tcp, if d then serverEp fl else clientEp fl, if d then clientEp fl else serverEp fl, pl, c, tag⟩
+    rolesOf o.ports p = (serverEp fl, clientEp fl) ∧ candidate o p = true := by
+  have hs : (fl.serverPort : Int) ∈ ports := by simpa using hsp
+  have hc : ¬ (fl.clientPort : Int) ∈ ports := by simpa using hcp
+  cases d <;> simp [rolesOf, candidate, ho, hs, hc, serverEp, clientEp]
+
+/-- the capture file in any container variant of the independent encoder: the reader model yields its packets -/
+theorem capture_read (v : Spec.Containers.Variant) (pkts : List (Nat × Bytes))
+    (hwf : v.WF (pkts.map fun p => .pkt p.1 p.2)) :
+    Container.read v.isLegacy (Spec.Containers.encode v (pkts.map fun p => .pkt p.1 p.2)) =
+      .ok ((pkts.map fun p => Spec.Containers.Ev.pkt p.1 p.2).filterMap (Spec.Containers.scale v)) :=
+  Props.C12.reader_roundtrip v _ hwf
 
 end
 
